@@ -630,7 +630,34 @@ def G_constarith(ctx, prog, lem, site):
             a, b = bound(st['rv']['a']), bound(st['rv']['b'])
             if a is not None and b is not None and a + b < 2 ** 31:
                 return 'sum of compile-time-bounded operands (<= %d)' % (a + b)
+    # shift by a literal amount: the assert condition is `Lt(const amount, const bits)` over constants
+    cp = op_place(t['cond'])
+    if cp is not None:
+        base = cp['l']
+        for st in fn.stmts(site['block']):
+            if st['k'] == 'assign' and is_local(st['pl'], base) and st['rv']['k'] == 'binop' and st['rv']['op'] == 'Lt':
+                a, b = bound(st['rv']['a']), bound(st['rv']['b'])
+                ca = const_value(st['rv']['a']) is not None or _is_const_chain(fn, st['rv']['a'])
+                cb = const_value(st['rv']['b']) is not None
+                if ca and cb and a is not None and b is not None and a < b and t['expected'] is True:
+                    return 'shift by the literal amount %d < %d bits' % (a, b)
     return None
+
+
+def _is_const_chain(fn, op, depth=4):
+    """operand is a constant, possibly through casts/copies of single-definition temporaries"""
+    if const_value(op) is not None:
+        return True
+    pl = op_place(op)
+    if pl is None or pl['p'] or depth == 0:
+        return False
+    sd = fn.single_def(pl['l'])
+    if sd is None or sd[1] == 'term':
+        return False
+    rv = sd[2]
+    if rv['k'] in ('use', 'cast'):
+        return _is_const_chain(fn, rv['op'], depth - 1)
+    return False
 
 
 def G_constinf(ctx, prog, lem, site):
